@@ -18,7 +18,13 @@ PROP = {'rule': 'rapid-generated cases. A case = one webhook-mutated pod (1-5 re
          'BE pod with >= 1 declaring container whose annotation differs from the right one. webhookAnnotation: CREATE of pods with 1-4 '
          'containers carrying batch (and other) resources that already bring an annotation along (none / empty / not JSON / right / '
          'edited: container dropped, limits or requests dropped, a limit or request changed or added, unknown container added) through '
-         'extendedResourceSpecMutatingPod; non-trivial = admitted pod with >= 1 declaring container whose submitted annotation is not the right one.',
+         'extendedResourceSpecMutatingPod; non-trivial = admitted pod with >= 1 declaring container whose submitted annotation is not the right one. '
+         'applied: the same pods and rule sequences; the reconciler entry points followed by ReconcilerDone write through the real resource '
+         'updaters onto a scratch cgroup tree (cgroup-v1 or v2 layout, files previously limited or unlimited) and the files are read back '
+         '(unlimited = -1 on v1, max on v2); NriDone must hand quota (also -1), shares and memory limit to the runtime; then an optional '
+         'change of the node ratio annotation through parseRuleForNodeMeta + ruleUpdateCbForNodeMeta (v1 layout) after which pod and every '
+         'configured container must hold the quota of the new ratio. non-trivial = BE pod with >= 1 declaring container that is unlimited in '
+         'memory or cpu at pod level or partially limited (some containers with a cpu limit, some without).',
  'assumptions': ['pkg/koordlet/util/perf_group/perf_group_linux.go is replaced (build overlay only) by a cgo-free stand-in with the same '
                  'exported surface, because libpfm4 headers are not installed; no oracle touches perf counters',
                  'best-effort = pod label koordinator.sh/qosClass=BE (the only marking apis/extension.GetQoSClassByAttrs reads; its '
@@ -32,6 +38,9 @@ PROP = {'rule': 'rapid-generated cases. A case = one webhook-mutated pod (1-5 re
                  'proxy/NRI requests carry only the annotation and are not asserted against a disagreeing spec',
                  'webhookAnnotation: the annotation is compared by value (quantity Cmp) after plain JSON decoding; a refused admission '
                  '(undecodable submitted annotation) is not asserted',
+                 'applied: plain files stand in for the kernel (no hierarchy constraints, cpu.max keeps only what was written: the first field is '
+                 'compared); cpu.weight on v2 is not compared; the ratio-change callback is exercised on the v1 layout only; the singleton '
+                 'resource executor is shared by the cases of a run, every case uses its own cgroup directory',
                  'cpu amounts are capped at 2^40 milli-cores per container so that milli*100000 cannot overflow int64 (not a real node size)',
                  'ratio scaling: ceil(quota/ratio) is computed in float64 by the code; accepted interval x(1-2^-50) <= got <= x(1+2^-50)+1 '
                  'with x = quota/ratio in exact rational arithmetic; a scaled value below 1000 us may also be re-clamped to 1000',
@@ -39,11 +48,14 @@ PROP = {'rule': 'rapid-generated cases. A case = one webhook-mutated pod (1-5 re
                  'code decides the boundary in float64, so an update within 1e-9 of exactly 0.01 away is accepted both as taken and as ignored'],
  'units': [{'name': 'batchresource',
             'pkg': 'pkg/koordlet/runtimehooks/hooks/batchresource',
-            'files': ['C14/c14_batchresource_test.go', 'C14/c14_stale_annotation_test.go'],
+            'files': ['C14/c14_batchresource_test.go', 'C14/c14_stale_annotation_test.go', 'C14/c14_applied_test.go'],
             'tests': [{'run': 'TestVerifC14Hooks', 'quick': 10000, 'thorough': 25000},
                       # reconciler path with an annotation that disagrees with pod.spec (absent / stale / hand-written): the declared
                       # amounts of the pod object must win for pod level and container level alike
-                      {'run': 'TestVerifC14StaleAnnotation', 'quick': 5000, 'thorough': 15000}]},
+                      {'run': 'TestVerifC14StaleAnnotation', 'quick': 5000, 'thorough': 15000},
+                      # last mile: injected values through the real updaters onto a scratch cgroup tree (v1 and v2), the NRI
+                      # adjustment built by NriDone, and the ratio-change callback ruleUpdateCbForNodeMeta
+                      {'run': 'TestVerifC14Applied', 'quick': 1200, 'thorough': 5000, 'shrinktime': '10s'}]},
            # the statement's input is "a request built from a webhook-mutated pod": the per-container summary annotation the hooks
            # read is written by pkg/webhook/pod/mutating/extended_resource_spec.go (one of C14's anchors). That step is checked by
            # the C13 mutating harness (annotation decodes to exactly the batch entries of the final spec), run here as a C14 unit.
